@@ -60,7 +60,9 @@ func run(c *vf.Ctx) {
 		maxGas, gasCap int64
 		burn           bool
 	}
-	scs := []sc{{0, 0, false}, {80_000_000, 60_000_000, true}}
+	// the third scenario lands the block gas meter EXACTLY on the limit: the first tx of every
+	// block wants the whole block (GasWanted == MaxGas) and runs out of gas
+	scs := []sc{{0, 0, false}, {80_000_000, 60_000_000, true}, {40_000_000, -40_000_000, true}}
 	nPer := c.N(1, 6)
 	var jobs []func(rng *rand.Rand)
 	for si, s := range scs {
@@ -77,6 +79,7 @@ func run(c *vf.Ctx) {
 	c.RequireCounter("txs_observed", 60)
 	c.RequireCounter("out_of_gas_txs", 2)
 	c.RequireCounter("block_gas_limit_failures", 1)
+	c.RequireCounter("txs_rejected_after_exhaustion", 3)
 	c.RequireCounter("warm_cold_gas_compared", 40)
 	c.RequireCounter("hostile_programs_run", 20)
 	c.RequireCounter("hostile_outcome:out-of-gas", 5)
@@ -85,7 +88,15 @@ func run(c *vf.Ctx) {
 func histories(c *vf.Ctx, maxGas, gasCap int64, burn bool, seed uint64, rng *rand.Rand) {
 	blocks := c.N(8, 30)
 	h := hist.GenP(rng, seed, blocks, 5, hist.Profile{FailBoost: true})
+	hog := gasCap < 0
+	if hog {
+		gasCap = -gasCap
+	}
 	for bi := range h.Blocks {
+		if hog && len(h.Blocks[bi]) > 0 {
+			h.Blocks[bi] = append([]hist.TxSpec{{Signer: hist.Users[rng.IntN(len(hist.Users))], Gas: maxGas, Fee: 1_000_000, Label: "hog",
+				Msgs: []hist.MsgSpec{{Kind: "call", Pkg: hist.StorePath, Func: "Burn", Args: []string{"900000"}}}}}, h.Blocks[bi]...)
+		}
 		for ti := range h.Blocks[bi] {
 			if gasCap > 0 && h.Blocks[bi][ti].Gas > gasCap {
 				h.Blocks[bi][ti].Gas = gasCap
